@@ -581,6 +581,7 @@ func (cs corruptsim) runStructural(c *Case, dir string, img []byte, e *work.Exec
 		limit = 400
 	}
 	for i, co := range cors {
+		Tick()
 		if i >= limit {
 			break
 		}
